@@ -43,6 +43,8 @@ fn run(args: &[String]) {
     let mut out = PathBuf::from(".");
     let mut scale = 1.0f64;
     let mut parts = vec![];
+    let mut only_seed = None;
+    let mut repeat = 20u64;
     let mut i = 1;
     while i < args.len() {
         let v = args.get(i + 1).cloned().unwrap_or_default();
@@ -56,6 +58,8 @@ fn run(args: &[String]) {
             }
             "--out" => out = PathBuf::from(&v),
             "--scale" => scale = v.parse().unwrap_or(1.0),
+            "--scenario-seed" => only_seed = v.parse().ok(),
+            "--repeat" => repeat = v.parse().unwrap_or(20),
             "--parts" => parts = v.split(',').filter(|s| !s.is_empty()).map(|s| s.to_string()).collect(),
             _ => usage(),
         }
@@ -70,7 +74,7 @@ fn run(args: &[String]) {
     let _ = std::fs::remove_dir_all(&scratch);
     std::fs::create_dir_all(&scratch).unwrap();
     util::panics::install();
-    let ctx = Ctx { seed, shard, nshards, tier, scale, scratch: scratch.clone(), parts };
+    let ctx = Ctx { seed, shard, nshards, tier, scale, scratch: scratch.clone(), parts, only_seed, repeat };
     let report = checks::run(&id, &ctx);
     let _ = std::env::set_current_dir("/");
     let _ = std::fs::remove_dir_all(&scratch);
